@@ -156,6 +156,12 @@ def sweep_cases(tier):
                 a0 = dict(el="Cl", x=x, y=0.5, z=-0.25, **lay)
                 a1 = dict(el="C", x=1.0, y=2.0, z=3.0)
                 yield (f"x-digits={d} sign={sign} layout={li}", [a0, a1], [(0, 1, 2)], None)
+    digits = "1234567890123456789012345678901234567890123456789"
+    for d in range(1, 49):
+        # non-round values: every digit matters (6 decimals of a float up to 2**53, all integer digits above)
+        x = float(int(digits[:d])) + (0.654321 if d <= 9 else 0.0)
+        for sign in (1, -1):
+            yield (f"x={sign * x!r}", [dict(el="C", x=sign * x, y=float(2 ** 53 + 2), z=-1.2345678901234567e22, chg=-15 if d % 2 else 15)], [], None)
     if tier == "thorough":
         for axis in ("y", "z"):
             for d in range(1, maxd + 1):
